@@ -76,6 +76,9 @@ def showForm : Form → String
 
 /-- upper-case shape tokens mark a call made on a clone of the client: no effect in the model -/
 def shapeOf (s : String) : Option Shape :=
+  -- a leading `w` marks a client that was already used before its configuration was completed;
+  -- that must make no difference to what it sends and advertises
+  let s := if s.toLower.startsWith "w" then (s.drop 1).toString else s
   match s.toLower with
   | "u" => some .unary
   | "ss" => some .serverStreaming
